@@ -312,6 +312,13 @@ def _check_adp(m, cls):
     for key in ("dipole", "quadrupole"):
         if len(set(frozenset((a, b)) for a, b, _ in m[key])) < npairs:
             cls.append("adp:undeclared_multipole")
+    for key in ("dipole", "quadrupole"):
+        for a, b, pd in m[key]:
+            try:
+                if a in els and b in els and abs(eamtab.ref_value(ref, pd, 0.0).v) > 1e-6:
+                    cls.append("adp:multipole_nonzero_at_origin")
+            except DomainError:
+                pass
     api_order = None
     v = []
     if route == "potable":
